@@ -29,6 +29,8 @@ func checkC06(e *Env) {
 	e.R.Explanation = "Decided (structural necessary conditions of C06): verifyVouchedSubset — authority index < len(authorities) before indexing, verifier built from that certificate, Verify(generateSignedMessage(vs.Signed, ver), vs.Sig) with err==nil and ok, decodeSignedSubset ok incl. its five-field completeness gate, auth-sha256 compared exactly with that certificate's SHA-256, the three time comparisons with exact operators, and the Authority handed back is the certificate the signature was checked with; NewVerifier verifies every vouched subset (no skip path, any failure aborts); VerifyExchange — a result is produced only after header-sha256 equality (exact), integrity id, digest header, MI decode with limit 16384 and ReadAll, and the payload is that ReadAll result; 'unsigned' (nil,nil) only when no verified subset lists the URL. Signer — authority index is read before the chain is appended, the bytes signed and the bytes stored are the same value, signer and verifier build the message with the same function, the signed subset covers its five fields, key tables of writer and reader agree, AddExchange refuses a second exchange per URL. Inherits the MI decoder typestate obligations of C15. " +
 		"Not decided: round trip through write/read, cryptography, sequences of signers beyond the index rule."
 	e.R.RuleText = "E2 must-pass-through with operand provenance; for-all loops with no-skip/no-early-exit rule; E7 key-table agreement; instruction-order rule for the authority index"
+	// ERRUSE: no error of a data-fallible module call is lost on the way (shared rule, erruse.go)
+	moduleErrorsConsumed(e, erruseEntries, 6, "bundle/signature.")
 
 	vvs := e.fn("bundle/signature.verifyVouchedSubset")
 	okOut := gate.Outcome{Kind: gate.ErrNil, Idx: 1}
@@ -148,6 +150,20 @@ func checkC06(e *Env) {
 			gate.CallBool("", "(*signature.Signer).CanSignForURL", false, "param:signer", tEx+".Request.URL"),
 			gate.CallOK("", "(*signature.Signer).AddExchange", "param:signer", tEx, "call:(*bundle.Exchange).AddPayloadIntegrity("+tEx+",param:b.Version,*)#0")))
 		e.requireStore("RESULT", as, "param:b.Signatures", "call:(*signature.Signer).UpdateSignatures(param:signer,param:b.Signatures)#0", "the signatures section extended by this signer")
+	}
+	// the MI digest is the response's only Digest value: the bundle format joins
+	// the values of one field with ",", so a second value would make the
+	// re-read header unparsable for the verifier (seed C06-f)
+	if api := e.fn("bundle.(*Exchange).AddPayloadIntegrity"); api != nil {
+		tEnc := "call:(bundle/version.Version).MiceEncoding(param:ver)"
+		o0 := gate.Outcome{Kind: gate.ErrNil, Idx: 1}
+		e.requireGates("GATE", api, o0, noCfg,
+			gate.Cmp("PI.no-digest-yet", `call:(http.Header).Get(param:e.Response.Header,const:"Digest")`, token.EQL, `const:""`),
+			gate.CallOK("PI.encode", "(mice.Encoding).Encode", tEnc, "local:buf", "param:e.Response.Body", "param:recordSize"),
+			gate.CallInstr("PI.content-encoding", "(http.Header).Add", "param:e.Response.Header", `const:"Content-Encoding"`, "call:(mice.Encoding).ContentEncoding("+tEnc+")"),
+			gate.CallInstr("PI.digest", "(http.Header).Add", "param:e.Response.Header", `const:"Digest"`, "call:(mice.Encoding).Encode("+tEnc+",local:buf,param:e.Response.Body,param:recordSize)#0"),
+		)
+		e.requireStore("RESULT", api, "param:e.Response.Body", "call:(*bytes.Buffer).Bytes(local:buf)", "the MI-encoded payload")
 	}
 	e.R.Floor("FORALL", 3)
 	// one subset hash / one verification per exchange and per vouched subset
